@@ -238,58 +238,12 @@ func runC08(p *core.Program, r *core.Report) {
 			"writes package-level state: "+strings.Join(bad, "; ")+" — two goroutines compiling or running at the same time race on it")
 	}
 
+	globalEscapeRule(p, r, ef, "R8.6", "two goroutines compiling or running at the same time share it, and what one call does depends on what earlier calls left there")
+
 	// R8.1: run side
-	var rs []*ssa.Function
-	for f := range reach {
-		rs = append(rs, f)
-	}
-	sort.Slice(rs, func(i, j int) bool { return ef.FuncKey(rs[i]) < ef.FuncKey(rs[j]) })
+	rs := runSideWriteRule(p, r, ef, reach, borrowed, "R8.1", "concurrent runs of one program (or a run and its caller) race on that object, and a run modifies its inputs")
 	for _, fn := range rs {
 		key := ef.FuncKey(fn)
-		rt := recvTypeKey(ef, fn)
-		var bad, und []string
-		pos := p.Pos(fn.Pos())
-		effs := ef.EffectsOf(fn)
-		for _, e := range effs {
-			for _, root := range e.Roots {
-				why := ""
-				switch root.Kind {
-				case eng.RootFresh, eng.RootNil:
-				case eng.RootRecv:
-					switch {
-					case perRunReceivers[rt] == "":
-						why = "receiver of type " + rt + " is not per-run state"
-					case strings.Contains(root.Detail, "(dyn)"):
-						why = "a run-time value taken from the VM (" + root.Detail + "), which may be part of the environment or a program constant"
-					default:
-						first := strings.FieldsFunc(root.Detail, func(c rune) bool { return c == '.' || c == '→' })
-						if len(first) > 0 && borrowed[rt+"."+first[0]] && strings.Contains(root.Detail, "→") {
-							why = "the object behind the borrowed field " + first[0] + " (it belongs to the shared program)"
-						}
-					}
-				case eng.RootParam:
-					why = "parameter " + root.Detail
-				case eng.RootGlobal:
-					why = "package-level " + root.Detail
-				case eng.RootResult:
-					why = "the result of " + root.Detail
-				default:
-					und = append(und, fmt.Sprintf("%s at %s: target not classified (%s)", e.What, p.Pos(e.Pos), root))
-				}
-				if why != "" {
-					bad = append(bad, fmt.Sprintf("%s at %s writes %s", e.What, p.Pos(e.Pos), why))
-					pos = p.Pos(e.Pos)
-				}
-			}
-		}
-		switch {
-		case len(bad) > 0:
-			r.Bad("R8.1", key+"/writes only per-run state", pos, strings.Join(bad, "; ")+" — concurrent runs of one program (or a run and its caller) race on that object, and a run modifies its inputs")
-		case len(und) > 0:
-			r.Unk("R8.1", key+"/writes only per-run state", pos, strings.Join(und, "; "))
-		default:
-			r.OK("R8.1", key+"/writes only per-run state", pos, fmt.Sprintf("%d write effects, all rooted at fresh objects or per-run receiver state", len(effs)))
-		}
 		// R8.5 foreign pointer-receiver methods on non-fresh objects
 		for _, b := range fn.Blocks {
 			for _, in := range b.Instrs {
@@ -366,6 +320,90 @@ func runC08(p *core.Program, r *core.Report) {
 	r.Floor("R8.1", 30)
 }
 
+// runSideWriteRule (R8.1 = R9.5): every write effect of every run-side function is rooted at a
+// fresh object or at per-run receiver state.
+func runSideWriteRule(p *core.Program, r *core.Report, ef *eng.Effects, reach map[*ssa.Function]bool, borrowed map[string]bool, rule, consequence string) []*ssa.Function {
+	var rs []*ssa.Function
+	for f := range reach {
+		rs = append(rs, f)
+	}
+	sort.Slice(rs, func(i, j int) bool { return ef.FuncKey(rs[i]) < ef.FuncKey(rs[j]) })
+	for _, fn := range rs {
+		key := ef.FuncKey(fn)
+		rt := recvTypeKey(ef, fn)
+		var bad, und []string
+		pos := p.Pos(fn.Pos())
+		effs := ef.EffectsOf(fn)
+		for _, e := range effs {
+			for _, root := range e.Roots {
+				why := ""
+				switch root.Kind {
+				case eng.RootFresh, eng.RootNil:
+				case eng.RootRecv:
+					switch {
+					case perRunReceivers[rt] == "":
+						why = "receiver of type " + rt + " is not per-run state"
+					case strings.Contains(root.Detail, "(dyn)"):
+						why = "a run-time value taken from the VM (" + root.Detail + "), which may be part of the environment or a program constant"
+					default:
+						first := strings.FieldsFunc(root.Detail, func(c rune) bool { return c == '.' || c == '→' })
+						if len(first) > 0 && borrowed[rt+"."+first[0]] && strings.Contains(root.Detail, "→") {
+							why = "the object behind the borrowed field " + first[0] + " (it belongs to the shared program)"
+						}
+					}
+				case eng.RootParam:
+					why = "parameter " + root.Detail
+				case eng.RootGlobal:
+					why = "package-level " + root.Detail
+				case eng.RootResult:
+					why = "the result of " + root.Detail
+				default:
+					und = append(und, fmt.Sprintf("%s at %s: target not classified (%s)", e.What, p.Pos(e.Pos), root))
+				}
+				if why != "" {
+					bad = append(bad, fmt.Sprintf("%s at %s writes %s", e.What, p.Pos(e.Pos), why))
+					pos = p.Pos(e.Pos)
+				}
+			}
+		}
+		switch {
+		case len(bad) > 0:
+			r.Bad(rule, key+"/writes only per-run state", pos, strings.Join(bad, "; ")+" — "+consequence)
+		case len(und) > 0:
+			r.Unk(rule, key+"/writes only per-run state", pos, strings.Join(und, "; "))
+		default:
+			r.OK(rule, key+"/writes only per-run state", pos, fmt.Sprintf("%d write effects, all rooted at fresh objects or per-run receiver state", len(effs)))
+		}
+	}
+	return rs
+}
+
+// globalEscapeRule (R8.6 = R9.6): no library function hands the address of a package-level
+// variable to anything but a load: package-level state is immutable after initialisation
+// (with R8.4: never stored to) and never used through foreign pointer-receiver methods
+// (sync.Map, sync.Mutex, sync.Once, atomic.*: the marks of a process-wide cache).
+func globalEscapeRule(p *core.Program, r *core.Report, ef *eng.Effects, rule, consequence string) {
+	n := 0
+	for _, fn := range ef.Funcs {
+		if fn.Name() == "init" || strings.HasPrefix(fn.Name(), "init#") {
+			continue
+		}
+		n++
+		esc := ef.GlobalEscapes(fn)
+		key := ef.FuncKey(fn) + "/package-level state only loaded"
+		if len(esc) == 0 {
+			r.OK(rule, key, p.Pos(fn.Pos()), "every use of a package-level variable is a plain load")
+			continue
+		}
+		var ds []string
+		for _, e := range esc {
+			ds = append(ds, fmt.Sprintf("%s: %s at %s", e.Global, e.How, p.Pos(e.Pos)))
+		}
+		r.Bad(rule, key, p.Pos(esc[0].Pos), strings.Join(ds, "; ")+" — a package-level object that is used through its address is process-wide mutable state (a cache, a lock, a lazily filled table): "+consequence)
+	}
+	r.Floor(rule, 200)
+}
+
 func fieldNameOf(n *types.Named, i int) string {
 	if s, ok := n.Underlying().(*types.Struct); ok && i < s.NumFields() {
 		return s.Field(i).Name()
@@ -380,6 +418,7 @@ var sharedSafeMethods = map[string]string{
 
 func c08Controls() []core.Mutant {
 	return []core.Mutant{
+		{Name: "struct field tables memoised in a package-level sync.Map", File: "conf/types_table.go", Old: "func FieldsFromStruct(t reflect.Type) TypesTable {\n", New: "var fieldsCache sync.Map\n\nfunc FieldsFromStruct(t reflect.Type) TypesTable {\n\tif c, ok := fieldsCache.Load(t); ok {\n\t\tif tt, ok := c.(TypesTable); ok {\n\t\t\treturn tt\n\t\t}\n\t}\n", Edits: [][2]string{{"import \"reflect\"\n", "import (\n\t\"reflect\"\n\t\"sync\"\n)\n"}}, Rule: "R8.6", Construct: "conf.FieldsFromStruct"},
 		{Name: "package-level cache written by fetch", File: "vm/runtime.go", Old: "func fetch(from, i interface{}, nilsafe bool) interface{} {\n", New: "var fetchCache = map[interface{}]interface{}{}\n\nfunc fetch(from, i interface{}, nilsafe bool) interface{} {\n\tfetchCache[i] = from\n", Rule: "R8.4", Construct: "vm.fetch"},
 		{Name: "memo field on Program written by Run", File: "vm/program.go", Old: "type Program struct {\n", New: "type Program struct {\n\tRuns int\n", More: []core.FileEdit{{File: "vm/vm.go", Old: "\tvm.limit = MemoryBudget\n", New: "\tvm.limit = MemoryBudget\n\tprogram.Runs++\n"}}, Rule: "R8.1", Construct: "vm.(*VM).Run"},
 		{Name: "VM patches the shared bytecode", File: "vm/vm.go", Old: "\t\tcase OpJumpBackward:\n\t\t\toffset := vm.arg()\n", New: "\t\tcase OpJumpBackward:\n\t\t\toffset := vm.arg()\n\t\t\tvm.bytecode[vm.pp] = OpJumpBackward\n", Rule: "R8.1", Construct: "vm.(*VM).Run"},
